@@ -356,4 +356,124 @@ theorem pathRadial_min (rs : List ((ℝ × ℝ) × (ℝ × ℝ))) (hne : rs ≠ 
     · cases h3
     · exact ⟨g, rfl, h1, k, s, hs, by simpa using hg⟩
 
+/-! ## the dual statement for the maximum (`global_max` starts as `(0, None, None)`, strict `>`) -/
+
+/-- what the reduction promises about the reported maximum -/
+def MaxGood (rs : List ((ℝ × ℝ) × (ℝ × ℝ))) (idx : ℕ) (gmax : Option (ℝ × ℝ × ℕ)) : Option (ℝ × ℝ × ℕ) → Prop
+  | none => gmax = none ∧ ∀ s ∈ rs, s.2.1 ≤ 0
+  | some g => 0 < g.1 ∧ (∀ s ∈ rs, s.2.1 ≤ g.1) ∧ (∀ g0, gmax = some g0 → g0.1 ≤ g.1) ∧
+      ((gmax = some g) ∨ ∃ k, k < rs.length ∧ ∃ s, rs[k]? = some s ∧ g = (s.2.1, s.2.2, idx + k))
+
+theorem stepMax_some (gmax : Option (ℝ × ℝ × ℕ)) (smax : ℝ × ℝ) (idx : ℕ) (hpos : ∀ g0, gmax = some g0 → 0 < g0.1)
+    (g1 : ℝ × ℝ × ℕ) (h : stepMax gmax smax idx = some g1) :
+    0 < g1.1 ∧ smax.1 ≤ g1.1 ∧ (∀ g0, gmax = some g0 → g0.1 ≤ g1.1) ∧ (gmax = some g1 ∨ g1 = (smax.1, smax.2, idx)) := by
+  cases gmax with
+  | none =>
+    by_cases hp : 0 < smax.1
+    · simp only [stepMax, hp, if_true, Option.some.injEq] at h
+      subst h
+      exact ⟨hp, le_refl _, by simp, Or.inr rfl⟩
+    · simp [stepMax, hp] at h
+  | some g =>
+    by_cases hlt : g.1 < smax.1
+    · simp only [stepMax, hlt, if_true, Option.some.injEq] at h
+      subst h
+      exact ⟨lt_trans (hpos g rfl) hlt, le_refl _, by intro g0 h0; cases h0; exact hlt.le, Or.inr rfl⟩
+    · simp only [stepMax, hlt, if_false, Option.some.injEq] at h
+      subst h
+      exact ⟨hpos g rfl, not_lt.mp hlt, by intro g0 h0; cases h0; exact le_refl _, Or.inl rfl⟩
+
+theorem stepMax_none (gmax : Option (ℝ × ℝ × ℕ)) (smax : ℝ × ℝ) (idx : ℕ) (h : stepMax gmax smax idx = none) :
+    gmax = none ∧ smax.1 ≤ 0 := by
+  cases gmax with
+  | none =>
+    by_cases hp : 0 < smax.1
+    · simp [stepMax, hp] at h
+    · exact ⟨rfl, not_lt.mp hp⟩
+  | some g =>
+    by_cases hlt : g.1 < smax.1 <;> simp [stepMax, hlt] at h
+
+theorem pathRadialLoop_max (rs : List ((ℝ × ℝ) × (ℝ × ℝ))) (idx : ℕ) (gmin gmax : Option (ℝ × ℝ × ℕ))
+    (hpos : ∀ g0, gmax = some g0 → 0 < g0.1) : MaxGood rs idx gmax (pathRadialLoop rs idx gmin gmax).2 := by
+  induction rs generalizing idx gmin gmax with
+  | nil =>
+    cases gmax with
+    | none => simp [pathRadialLoop, MaxGood]
+    | some g =>
+      show MaxGood [] idx (some g) (some g)
+      exact ⟨hpos g rfl, by simp, by intro g0 h0; cases h0; exact le_refl _, Or.inl rfl⟩
+  | cons s rest ih =>
+    obtain ⟨smin, smax⟩ := s
+    have hpos' : ∀ g1, stepMax gmax smax idx = some g1 → 0 < g1.1 := fun g1 h1 => (stepMax_some gmax smax idx hpos g1 h1).1
+    have h := ih (idx + 1) (stepMin gmin smin idx) (stepMax gmax smax idx) hpos'
+    simp only [pathRadialLoop]
+    cases hr : (pathRadialLoop rest (idx + 1) (stepMin gmin smin idx) (stepMax gmax smax idx)).2 with
+    | none =>
+      rw [hr] at h
+      obtain ⟨e1, e2⟩ := h
+      obtain ⟨n1, n2⟩ := stepMax_none gmax smax idx e1
+      refine ⟨n1, ?_⟩
+      intro s hs
+      rcases List.mem_cons.mp hs with rfl | hs
+      · exact n2
+      · exact e2 s hs
+    | some g =>
+      rw [hr] at h
+      obtain ⟨t0, t1, t2, t3⟩ := h
+      have hsm : smax.1 ≤ g.1 := by
+        cases hst : stepMax gmax smax idx with
+        | none => exact le_trans (stepMax_none gmax smax idx hst).2 t0.le
+        | some g1 => exact le_trans (stepMax_some gmax smax idx hpos g1 hst).2.1 (t2 g1 hst)
+      refine ⟨t0, ?_, ?_, ?_⟩
+      · intro s hs
+        rcases List.mem_cons.mp hs with rfl | hs
+        · exact hsm
+        · exact t1 s hs
+      · intro g0 h0
+        cases hst : stepMax gmax smax idx with
+        | none => rw [(stepMax_none gmax smax idx hst).1] at h0; cases h0
+        | some g1 => exact le_trans ((stepMax_some gmax smax idx hpos g1 hst).2.2.1 g0 h0) (t2 g1 hst)
+      · rcases t3 with h' | ⟨k, hk, s, hs, hgk⟩
+        · rcases (stepMax_some gmax smax idx hpos g h').2.2.2 with h'' | h''
+          · left; exact h''
+          · right; exact ⟨0, by simp, (smin, smax), by simp, by simpa using h''⟩
+        · right
+          exact ⟨k + 1, by simpa using hk, s, by simpa using hs, by rw [hgk]; simp [Nat.add_assoc, Nat.add_comm 1 k]⟩
+
+/-- when some segment has a point at positive distance, the farthest point reported is the global
+maximum over all segments, with the index of a segment attaining it -/
+theorem pathRadial_max (rs : List ((ℝ × ℝ) × (ℝ × ℝ))) (hpos : ∃ s ∈ rs, 0 < s.2.1) :
+    ∃ g, (pathRadial rs).2 = some g ∧ (∀ s ∈ rs, s.2.1 ≤ g.1) ∧
+      ∃ k s, rs[k]? = some s ∧ g = (s.2.1, s.2.2, k) := by
+  have h := pathRadialLoop_max rs 0 none none (by simp)
+  unfold pathRadial
+  cases hr : (pathRadialLoop rs 0 none none).2 with
+  | none =>
+    rw [hr] at h
+    obtain ⟨s, hs, hp⟩ := hpos
+    exact absurd (h.2 s hs) (not_le.mpr hp)
+  | some g =>
+    rw [hr] at h
+    obtain ⟨_, h1, _, h3⟩ := h
+    rcases h3 with h3 | ⟨k, _, s, hs, hg⟩
+    · cases h3
+    · exact ⟨g, rfl, h1, k, s, hs, by simpa using hg⟩
+
+/-- when every distance is 0 (the whole path is the query point) no segment beats the initial
+`(0, None, None)` and the initial value is returned -/
+theorem pathRadial_max_none (rs : List ((ℝ × ℝ) × (ℝ × ℝ))) (h0 : ∀ s ∈ rs, s.2.1 ≤ 0) : (pathRadial rs).2 = none := by
+  have h := pathRadialLoop_max rs 0 none none (by simp)
+  unfold pathRadial
+  cases hr : (pathRadialLoop rs 0 none none).2 with
+  | none => rfl
+  | some g =>
+    rw [hr] at h
+    obtain ⟨hp, _, _, h3⟩ := h
+    rcases h3 with h3 | ⟨k, _, s, hs, hg⟩
+    · cases h3
+    · have hm : s ∈ rs := List.mem_of_getElem? hs
+      have : g.1 = s.2.1 := by rw [hg]
+      rw [this] at hp
+      exact absurd (h0 s hm) (not_le.mpr hp)
+
 end SvgVerif.Props.C13
